@@ -30,4 +30,21 @@ Example C18_nonvacuous :
   /\ c18_ok 2 (map to_op ops) tr = true.
 Proof. vm_compute. split; reflexivity. Qed.
 
+
+(* ------------------------------------------------------------------------------------------ *)
+(* Server half (model: Server.v; proofs: Server*.v; statements restated from ServerProps.v).
+   From here on unqualified names are the SERVER model's. *)
+From TarpcV Require Import TimerWheel Server ServerMon ServerFuel ServerProps ServerWitness.
+
+(* Server channel, EVERY transport, configuration and op list: the request a poll of the
+   Requests stream hands to the application carries the id, deadline, body and the trace number
+   (2 * trace id + sampling bit) of the last request the transport delivered in that poll: the
+   server never rewrites the trace id or the sampling decision (its own span id is a fresh draw
+   and is not observed). *)
+Theorem C18_server_monitor : forall (T C : Type) (tp : transport T response cmsg) (ctl : T -> C -> T)
+    (tfuel : T -> nat) (c : cfg) (t0 : T) (ops : list (op C)),
+  tfuel_ok tp tfuel -> c18s_ok (fst (run tp ctl tfuel c t0 ops)) = true.
+Proof. exact ServerProps.C18_server_monitor. Qed.
+
 Print Assumptions C18_client_monitor.
+Print Assumptions C18_server_monitor.
